@@ -154,7 +154,7 @@ package jsonrpc2
 
 // write: a failed write marks the connection broken (write$2) only if the failure can be blamed neither on the
 // caller's context nor on a transport-level rejection; cancelled or rejected writes leave the session usable.
-//@ func (*Connection).write [C04]
+//@ func (*Connection).write [C04, C13]
 //@   track ctx.Err as ctxErr
 //@   track write$2 as breakConnection
 //@   track c.writer.Write as transportWrite
